@@ -436,9 +436,28 @@ func isParamNamed(v ssa.Value, name string) bool {
 	return false
 }
 
+// groupsigScalarField: every modular reduction in consensus/groupsig is modulo
+// the order of the signature group (curveOrder = bn256.Order), wherever it is.
+func groupsigScalarField(c *eng.Ctx, r *eng.Report, rule string) {
+	for _, fn := range c.PkgFuncs("consensus/groupsig") {
+		if c.IsTestFunc(fn) {
+			continue
+		}
+		i := 0
+		for _, call := range callsNamed(fn, "big.Int).Mod", "big.Int).ModInverse", "big.Int).Exp", "big.Int).ModSqrt") {
+			m := call.Call.Args[len(call.Call.Args)-1]
+			d := eng.Desc(m)
+			ok := d == "global:curveOrder" || d == "global:Order"
+			r.Check(ok, rule, fmt.Sprintf("scalar-modulus:%s#%d", eng.FuncName(fn), i), c.Pos(call.Pos()), "reduces modulo the group order", eng.FuncName(fn)+" reduces a scalar modulo "+d+" instead of the group order: the scalar used for signing (or sharing) is no longer the one the public key was derived from, so honest signatures fail or a key has two signatures")
+			i++
+		}
+	}
+}
+
 func c13Modulus(c *eng.Ctx, r *eng.Report) {
 	const rule = "R13.3"
 	r.Min(rule, 8)
+	groupsigScalarField(c, r, rule)
 	names := []string{"ShareSeckey", "AggregateSeckeys", "recoverSignature", "NewSeckeyFromBigInt"}
 	for _, n := range names {
 		fn := c.Func("consensus/groupsig", n)
@@ -785,8 +804,7 @@ func c13Dealer(c *eng.Ctx, r *eng.Report) {
 func c13ReadOnly(c *eng.Ctx, r *eng.Report) {
 	const rule = "R13.5"
 	r.Min(rule, 4)
-	type ent struct{ pkg, name string }
-	fns := []ent{
+	inputsUntouched(c, r, rule, []roEnt{
 		{"consensus/groupsig", "recoverSignature"},
 		{"consensus/groupsig", "RecoverGroupSignature"},
 		{"consensus/groupsig", "getRandomKSignInfo"},
@@ -796,7 +814,12 @@ func c13ReadOnly(c *eng.Ctx, r *eng.Report) {
 		{"consensus/model", "(*GroupSignGenerator).GetWitnessSign"},
 		{"consensus/logical", "(*groupSignGenerator).genGroupSign"},
 		{"consensus/logical", "(*groupSignGenerator).addWitnessForce"},
-	}
+	})
+}
+
+type roEnt struct{ pkg, name string }
+
+func inputsUntouched(c *eng.Ctx, r *eng.Report, rule string, fns []roEnt) {
 	mutators := func(n string) bool {
 		for _, s := range []string{"G1).ScalarMult", "G1).Add", "G1).Neg", "G1).Set", "G1).ScalarBaseMult", "G1).Unmarshal", "G1).HashToPoint",
 			"G2).ScalarMult", "G2).Add", "G2).Neg", "G2).Set", "G2).ScalarBaseMult", "G2).Unmarshal",
@@ -855,6 +878,9 @@ func freshRoot(v ssa.Value, depth int) string {
 			st, ok := ref.(*ssa.Store)
 			if !ok || st.Addr != ssa.Value(x) {
 				continue
+			}
+			if u, isU := st.Val.(*ssa.UnOp); isU && u.X == ssa.Value(x) {
+				continue // `*p = *p` (named-result spill)
 			}
 			if holdsPointer(st.Val.Type()) {
 				if _, isAlloc := st.Val.(*ssa.Alloc); !isAlloc {
